@@ -102,6 +102,13 @@ TEXT = {
         'note': 'Trusted: Lean kernel; the hand-written model Z80/Spec/Cim.lean (validated against the built binaries by the correspondence on every run, not derived from the source); OS file I/O, flag parsing.',
         'technique': 'Lean 4 proof: list-layout theorems on a hand-written model; differential correspondence built binaries vs model on generated files',
     },
+    'C11': {
+        'text': 'Machine-checked about the two regenerated ~450-line switch arms (Gen.executeOne_sw_dd / _sw_fd, DDCB/FDCB sub-switches included): for EVERY second byte, displacement, fourth byte and EVERY state, running the FD arm from the '
+                'state with IX and IY exchanged equals the DD arm\'s result with IX and IY exchanged back — registers, flags, memory and the identical ordered bus/port log (C11_tables); the DD arm neither reads nor writes IY and the FD arm '
+                'neither reads nor writes IX (C11_dd_blind_iy / C11_fd_blind_ix). Via: per-slot obligations (both arms = reference decoder), decode symmetry by kernel evaluation over all 256 bytes, and a symmetry + frame theorem of the reference semantics over all instructions.',
+        'note': NOTE_COMMON,
+        'technique': 'Lean 4 proof: per-slot obligations + exec_mirror/exec_xy_blind (all instructions, all states) + decide over decode tables; differential correspondence incl. real-vs-real DD/FD mirror pairs',
+    },
     'C16': {
         'text': 'Machine-checked symbolic bit-vector theorems over the definitions regenerated from flag.go/z80.go: GetFlag = any-named-bit, '
                 'SetFlag = F|m, ResetFlag = F&~m for all masks and all F, frame (A and all other fields unchanged), constants = Z80 bit positions, '
